@@ -1767,6 +1767,16 @@ func (*Context).StoreName
   ensures [C17] !useHook ==> hookCalls == 0
   ensures [C17] hookCalls <= 1
 
+// ReadExpr hands the matched expression back as TEXT (a computed value without compiled code): it is compiled when it is
+// evaluated, by the evaluating VM under that VM's configuration — the scratch parser that found the extent of the
+// expression runs without the host's switches, so its code must not be kept (C16).
+func (*CustomDiceStream).ReadExpr
+  props C16 C17
+  advisory-safety
+  requires s != nil
+  ensures [C16] result1 ==> result0 != nil && result0.TypeId == VMTypeComputedValue && len(result0.Value.(*ComputedData).code) == 0 && result0.Value.(*ComputedData).codeIndex == 0
+  ensures !result1 ==> result0 == nil
+
 func (*ParserCustomData).PrepareCustomDice
   props C17 C01
   nilrecv
